@@ -21,7 +21,7 @@ def strategy(tier):
     @st.composite
     def cases(draw):
         spec = draw(gen.charts(max_states=9, p_sends=0.4, send_delays=True, max_tr=10,
-                               p_eventless=0.1))
+                               p_eventless=0.1, p_aguard=0.15))
         ops = draw(gen.histories(spec, 10, 40, advances=True, delays=True, as_event=True,
                                  extra_events=1, p_all=0.3, p_none=0.3))
         return {'spec': spec, 'ops': ops}
